@@ -206,7 +206,9 @@ func hashBytes(bs []byte) uint32 {
 // ---------------------------------------------------------------- property evaluation shared by both modes
 
 type finding struct {
-	kind, key, summary string
+	Kind    string `json:"kind"`
+	Key     string `json:"key"`
+	Summary string `json:"summary"`
 }
 
 type evalCtx struct {
@@ -226,6 +228,17 @@ func newEvalCtx(specs []RecSpec) *evalCtx {
 		}
 	}
 	return e
+}
+
+// applyConf: what ApplyConfig must do to the settings (values travel as int32)
+func applyConf(s Settings, c *ConfSpec) Settings {
+	get := func(p *int64, def int64) int64 {
+		if p == nil {
+			return def
+		}
+		return int64(int32(*p))
+	}
+	return Settings{MaxWait: get(c.MaxWait, 2000), QueueCap: get(c.QueueSize, 1000), MaxBuf: get(c.MaxBuf, 65536), ZipMin: get(c.ZipMin, 100)}
 }
 
 func (e *evalCtx) goodOf(ids []int) []int {
@@ -404,10 +417,24 @@ func fromVS(s zip.SettingsForVerif) Settings {
 func runDet(c *Case, e *evalCtx) *detResult {
 	cl := &recClient{mode: c.Client, fault: c.Fault}
 	var snd *zip.ZipSendProxyThread
-	snd = zip.NewForVerif(cl, toVS(c.Settings))
-	cl.zipMin = func() int64 { return int64(snd.SettingsForVerif().ZipMinSize) }
+	if c.Ctor == "noqueue" {
+		// the production constructor without WithUseQueue: no queue, no goroutine, the built-in defaults
+		singleton.Lock()
+		zip.ResetForVerif()
+		snd = zip.GetInstance(zip.WithTcpClient(cl))
+		zip.ResetForVerif()
+		singleton.Unlock()
+	} else {
+		snd = zip.NewForVerif(cl, toVS(c.Settings))
+	}
+	hasQueue := snd.Queue != nil
+	// the settings that MUST be in force: the harness's own reading of the history (initial settings,
+	// then every ApplyConfig: key present -> its value, absent -> the documented fall-back).  Flush and
+	// compression are judged against these, not against what the sender reports about itself.
+	exp := c.Settings
+	cl.zipMin = func() int64 { return exp.ZipMin }
 	var dropped []int // ids reported through the Failed callback (when installed)
-	if c.FailedCb {
+	if c.FailedCb && hasQueue {
 		snd.Queue.Failed = func(v interface{}) {
 			if p, ok := v.(*pack.LogSinkPack); ok && p != nil {
 				dropped = append(dropped, e.byPtr[p])
@@ -434,7 +461,7 @@ func runDet(c *Case, e *evalCtx) *detResult {
 		cl.mu.Lock()
 		cl.opIdx = i
 		cl.mu.Unlock()
-		st := fromVS(snd.SettingsForVerif())
+		st := exp
 		cnt0, len0, first0 := snd.BufferedForVerif()
 		np0 := cl.n()
 		var out vh.Outcome
@@ -447,7 +474,10 @@ func runDet(c *Case, e *evalCtx) *detResult {
 			// what it accepted; capacity <= 0 means unbounded
 			nd := len(dropped)
 			q0 := snd.Queue.Size()
-			capacity := snd.Queue.GetCapacity()
+			capacity := int(exp.QueueCap)
+			if snd.Queue.GetCapacity() != capacity {
+				e.prop("ApplyConfig:queue-capacity-not-applied", "op %d: the queue's capacity is %d, the queue size in force is %d", i, snd.Queue.GetCapacity(), capacity)
+			}
 			accept := capacity <= 0 || len(fifo) < capacity
 			if q0 != len(fifo) {
 				fifoBroken = true
@@ -564,7 +594,11 @@ func runDet(c *Case, e *evalCtx) *detResult {
 			chk("max_wait_time", o.C.MaxWait, got.MaxWait)
 			chk("max_buffer_size", o.C.MaxBuf, got.MaxBuf)
 			chk("logsink_zip_min_size", o.C.ZipMin, got.ZipMin)
-			if o.C.QueueSize != nil && int64(snd.Queue.GetCapacity()) != got.QueueCap {
+			exp = applyConf(exp, o.C)
+			if got != exp {
+				e.prop("ApplyConfig:settings-not-in-force", "op %d: after this reload the settings in force must be %s (key present: its value; absent: the fall-back 2000 ms / 1000 / 64 KiB / 100), the sender runs with %s", i, exp.String(), got.String())
+			}
+			if hasQueue && o.C.QueueSize != nil && int64(snd.Queue.GetCapacity()) != got.QueueCap {
 				e.prop("ApplyConfig:queue-capacity-not-applied", "op %d: logsink_queue_size=%d in force but the queue's capacity is %d", i, got.QueueCap, snd.Queue.GetCapacity())
 			}
 		}
@@ -680,7 +714,7 @@ func runDet(c *Case, e *evalCtx) *detResult {
 			}
 		}
 	}
-	if snd.Queue.Size() != len(fifo) {
+	if hasQueue && snd.Queue.Size() != len(fifo) {
 		e.prop("queue:size", "%d records should be queued, the queue holds %d", len(fifo), snd.Queue.Size())
 	}
 	bufIDs := "?"
@@ -699,7 +733,7 @@ func runDet(c *Case, e *evalCtx) *detResult {
 
 func (e *evalCtx) hasKeySuffix(suf string) bool {
 	for _, f := range e.finds {
-		if strings.HasSuffix(f.key, suf) {
+		if strings.HasSuffix(f.Key, suf) {
 			return true
 		}
 	}
